@@ -203,7 +203,7 @@ func enumDefaultCovered(p *core.Prog, f *ssa.Function, pn *ssa.Panic) (string, b
 	}
 	tt := info.TypeOf(sw.Tag)
 	named, ok := tt.(*types.Named)
-	if !ok || named.Obj().Pkg() == nil || named.Obj().Pkg().Path() != core.ModPath || named.Obj().Name() != "BaseType" {
+	if !ok || named.Obj().Pkg() == nil || named.Obj().Pkg().Path() != core.ModPath || core.TypeName(named) != "BaseType" {
 		return "", false
 	}
 	// declared constants of the type
